@@ -552,3 +552,75 @@ Proof.
   eexists. exists (VStruct [VPtr (Some (VNum 5))]). eexists.
   repeat split; vm_compute; reflexivity.
 Qed.
+
+(* ------------------------------------------------------------ reading `post` at one top-level field *)
+Lemma post_each_nth : forall o sfs sv dfs dvs dvs' i dn dexp dft x x',
+  post_each o sfs sv dfs dvs dvs' ->
+  nth_opt dfs i = Some (dn, dexp, dft) -> nth_opt dvs i = Some x -> nth_opt dvs' i = Some x' ->
+  match (if dexp && negb (in_ignore o dn) then assoc_find (field_map sfs 0 []) dn else None) with
+  | None => x' = x
+  | Some si =>
+    match nth_opt sfs si, sfield sv si with
+    | Some (_, _, sft), Some y =>
+        field_post o dn sft y dft x x' (fun y1 x1 x1' => post o (unptr sft) y1 (unptr dft) x1 x1')
+    | _, _ => False
+    end
+  end.
+Proof.
+  intros o sfs sv dfs; induction dfs as [|[[fn fe] ft] r IH];
+    intros dvs dvs' i dn dexp dft x x' Hp Hf Hx Hx'.
+  - destruct i; discriminate Hf.
+  - destruct dvs as [|u ur]; [destruct i; discriminate Hx|].
+    destruct dvs' as [|w wr]; [destruct i; discriminate Hx'|].
+    cbn [post_each] in Hp. destruct Hp as [Hh Hr].
+    destruct i; cbn in Hf, Hx, Hx'.
+    + inversion Hf; inversion Hx; inversion Hx'; subst. exact Hh.
+    + eapply IH; eassumption.
+Qed.
+
+(* The property's main clause at a top-level field: an exported destination field F whose
+   name is not ignored and has no converter, matched by the exported source field of the
+   same name and identical leaf type t (basic kind, slice, map, chan, array, time.Time),
+   holds the source's value after a successful CopyTo whenever that value is non-zero or
+   the destination field held the zero value; ignored fields keep their value. *)
+Lemma copy_leaf_value_lemma : forall sn sfs dname dfs ps c svs dvs cps r di si name t y x,
+  let st := Struct sn sfs in
+  let dt := Struct dname dfs in
+  new_reflect_copier st dt ps = COk c ->
+  Forall opt_ok ps -> Forall opt_ok cps ->
+  has_type st (VStruct svs) = true -> has_type dt (VStruct dvs) = true ->
+  reflect_copy_to c st dt (Some (VStruct svs)) (Some (VStruct dvs)) cps = (r, SOk) ->
+  nth_opt dfs di = Some (name, true, t) ->
+  assoc_find (field_map sfs 0 []) name = Some si ->      (* the exported source field of that name *)
+  nth_opt sfs si = Some (name, true, t) ->
+  nth_opt svs si = Some y -> nth_opt dvs di = Some x ->
+  (is_shadow_kind (kind_of t) || is_atomic_type t) = true ->
+  find_conv (effective_options c cps) name = None ->
+  exists dvs', r = Some (VStruct dvs') /\
+    (in_ignore (effective_options c cps) name = true -> nth_opt dvs' di = Some x) /\
+    (in_ignore (effective_options c cps) name = false ->
+     (is_zero y = false \/ x = zero_value t) -> nth_opt dvs' di = Some y).
+Proof.
+  intros sn sfs dname dfs ps c svs dvs cps r di si name t y x st dt
+         Hnew Hps Hcps Hsv Hdv Hrun Hdf Hfind Hsf Hy Hx Hleaf Hnc.
+  destruct (copy_spec_lemma st dt ps c _ _ cps r Hnew Hps Hcps Hsv Hdv Hrun) as [dv' [Hr [Ht Hpost]]].
+  destruct dv' as [z|s|dvs'|p|s|m|z]; cbn in Ht; try discriminate Ht.
+  exists dvs'. split; [exact Hr|].
+  unfold st, dt in Hpost. rewrite post_struct with (sfs := sfs) in Hpost by reflexivity.
+  assert (Hlen : exists x', nth_opt dvs' di = Some x').
+  { unfold dt in Ht. rewrite <- has_type_struct with (n := dname) in Ht. rewrite has_type_struct in Ht.
+    apply has_types_iff in Ht. destruct (flds_typed_nth _ _ _ _ _ _ Ht Hdf) as [x' [Hx' _]].
+    exists x'. exact Hx'. }
+  destruct Hlen as [x' Hx'].
+  pose proof (post_each_nth _ _ _ _ _ _ _ _ _ _ _ _ Hpost Hdf Hx Hx') as Hh.
+  cbn [andb] in Hh.
+  assert (Hnp : is_ptr_kind t = false).
+  { destruct t; cbn in Hleaf; try discriminate Hleaf; reflexivity. }
+  destruct (nonptr_facts _ Hnp) as [Hu [Hd Hdd]].
+  split.
+  - intros Hig. rewrite Hig in Hh. cbn [negb] in Hh. rewrite Hx'. f_equal. exact Hh.
+  - intros Hig Hcond. rewrite Hig in Hh. cbn [negb] in Hh. rewrite Hfind, Hsf in Hh.
+    cbn [sfield] in Hh. rewrite Hy in Hh. unfold field_post in Hh.
+    rewrite Hu, Hleaf, Hd, Hnc, Hdd, Hnp in Hh. cbn [rewrap] in Hh.
+    destruct Hh as [_ [x1' [Hx1 [_ Hval]]]]. rewrite Hx'. f_equal. subst x'. apply Hval. exact Hcond.
+Qed.
